@@ -217,7 +217,14 @@ def check_pratt_loop(ctx, lib):
     ctx.check(tt in cyc and ft not in cyc, rule, "guard-polarity", "the true branch of the guard continues the loop, the false branch leaves it", b.span)
     # result is the accumulated left operand
     ret = {strip_through(t) for t in o.of_local(0)}
-    ok = all(t[0] == "call" and t[1] in (P + "nud", P + "led") for t in ret)
+
+    def is_left(t):
+        # what nud / led produced — handed on as it is, or unwrapped with `?` and wrapped again in Ok(..)
+        t = strip_through(t)
+        if t[0] == "call" and t[1] in (P + "nud", P + "led"):
+            return True
+        return t[0] == "agg" and t[1] == "std::result::Result::Ok" and len(t[2]) == 1 and bool(t[2][0]) and all(is_left(x) for x in t[2][0])
+    ok = bool(ret) and all(is_left(t) for t in ret)
     ctx.check(ok, rule, "result", f"expr returns the accumulated left operand (origins: {fmt_terms(ret)})", b.span)
 
 
